@@ -750,6 +750,7 @@ func (w *World) issue(o *OpRec) {
 		c.send(w, p, o, 0)
 		c.closeAfterSend(w, "fin")
 		c.closeWaiters = append(c.closeWaiters, o)
+		w.FireTrigger(fmt.Sprintf("disconnect>%d", op.C)) // operations of other clients may wait for this moment
 	case "cut":
 		mode := op.Mode
 		if mode == "" {
